@@ -104,3 +104,25 @@ Theorem C08_src_root_link_followed_iff_deref :
 Proof. destruct x_walker_shape_ok as (_ & _ & Hi & _). rewrite Hi. reflexivity. Qed.
 Print Assumptions C08_link_operand_is_one_action.
 Print Assumptions C08_src_root_link_followed_iff_deref.
+
+(* ---- further functions on this property's path, pinned token for token as validated (dependency review after rounds 5 and 6:
+   each missed change had edited a pinned function that this property did not cite) ---- *)
+From XcpPins Require Import Pin_main_main Pin_backup_needs_backup Pin_operations_copy_file Pin_parblock_queue_file_blocks Pin_linux_copy_node Pin_common_is_same_file.
+Theorem C08_src_pin_main_main : pin_unchanged name_main_main.
+Proof. exact pin_main_main. Qed.
+Theorem C08_src_pin_backup_needs_backup : pin_unchanged name_backup_needs_backup.
+Proof. exact pin_backup_needs_backup. Qed.
+Theorem C08_src_pin_operations_copy_file : pin_unchanged name_operations_copy_file.
+Proof. exact pin_operations_copy_file. Qed.
+Theorem C08_src_pin_parblock_queue_file_blocks : pin_unchanged name_parblock_queue_file_blocks.
+Proof. exact pin_parblock_queue_file_blocks. Qed.
+Theorem C08_src_pin_linux_copy_node : pin_unchanged name_linux_copy_node.
+Proof. exact pin_linux_copy_node. Qed.
+Theorem C08_src_pin_common_is_same_file : pin_unchanged name_common_is_same_file.
+Proof. exact pin_common_is_same_file. Qed.
+Print Assumptions C08_src_pin_main_main.
+Print Assumptions C08_src_pin_backup_needs_backup.
+Print Assumptions C08_src_pin_operations_copy_file.
+Print Assumptions C08_src_pin_parblock_queue_file_blocks.
+Print Assumptions C08_src_pin_linux_copy_node.
+Print Assumptions C08_src_pin_common_is_same_file.
